@@ -209,7 +209,8 @@ class C01(Prop):
             if k < 0.30 or n not in live and k < 0.5:
                 ver[n] += 1
                 exc = rng.choice(mito.EXC_KINDS) if rng.random() < 0.35 else None
-                lines.append(mito.tool_line(n, rng.sample(mito.CAPS, rng.choice([0, 0, 1])), ver[n], exc))
+                lines.append(mito.tool_line(n, rng.sample(mito.CAPS, rng.choice([0, 0, 1])), ver[n], exc,
+                                            rng.choice(mito.ROUTES[:3] + ["fn"])))
                 live.add(n)
             elif k < 0.40:
                 lines.append(f"untool {mito.hexs(n)}")
@@ -429,6 +430,24 @@ class C01(Prop):
                 cases.append({"lines": lines, "note": "odd tool name"})
         spaces.append({"name": f"{len(mito.ODD_TOOLNAMES)} odd tool names (regex-special, empty, long, non-ASCII, "
                                "equal to allow-listed functions) x texts x auto-detection", "cases": cases})
+        # every registration route x capability settings: the registry, the capability check and the tool pathway do not
+        # depend on HOW the tool came in (register_function / engulf_tool(SimpleTool) / a foreign object carrying its
+        # capabilities under the protocol's other attribute name / the constructor's tools=)
+        cases = []
+        for route in mito.ROUTES:
+            for (caps, allowed) in (([], None), (["net"], None), (["net"], ["net", "read_fs"]), (["net"], ["read_fs"]),
+                                    (["net", "money"], ["net"]), ([], []), (["exec_code"], [])):
+                lines = [mito.tables_line(facts, mito.TN),
+                         mito.cfg_line(facts, rng.randrange(1, 10 ** 6), silent=True, ros=(1000, 1), allowed=allowed),
+                         mito.tool_line("tool1", caps, 1, None, route), mito.tool_line("Calc", [], 0, None, route)]
+                lines += [mito.met_line("auto", "tool1(t0)"), mito.met_line("tool", "tool1(t0, k=t1)"),
+                          mito.met_line("auto", "calc(t0)"), mito.met_line("tool", "Calc(t0)"),
+                          mito.met_line("tool", "TOOL1(t0)"), mito.met_line("math", "tool1(t0)")]
+                lines.append(mito.tool_line("tool1", caps, 2, "nodoc_msg", route))      # re-registered: the new body
+                lines += [mito.met_line("auto", "tool1(t0)"), mito.met_line("auto", "Calc(t1)")]
+                cases.append({"lines": lines, "note": "registration route " + route})
+        spaces.append({"name": f"{len(mito.ROUTES)} registration routes x capability settings x re-registration",
+                       "cases": cases})
         # legacy entry point digest_glucose (and the agent's "calculate ..." prompt) on values that do / do not render
         cases = []
         lines = mito.header(rng, facts, silent=True)
@@ -620,6 +639,8 @@ class C01(Prop):
             elif t[0] == "tool":
                 tools[mito.unhexs(t[1])] = set([] if t[3] == "-" else t[3].split(","))
                 vers[mito.unhexs(t[1])] = int(t[4][1:].split(":")[0]) if len(t) > 4 else 0
+                if len(t) > 5 and t[5] == "r=ctor":
+                    pass      # a new engine built with tools=[…]: the tools registered so far are handed over
             elif t[0] == "untool":
                 tools.pop(mito.unhexs(t[1]), None)
                 vers.pop(mito.unhexs(t[1]), None)
